@@ -200,4 +200,22 @@ PROPS = {
         'technique': 'Coq proofs over the location model (gates, property facts, cascade) + differential replay of lifecycle histories',
         'assumptions': ['sequential histories'],
     },
+    'C01': {
+        'props_file': 'props/C01.v',
+        'domains': [{'name': 'loc-dispatch', 'quick': 500, 'thorough': 30000, 'thorough_shards': 12},
+                    {'name': 'pindex', 'quick': 3000, 'thorough': 150000, 'thorough_shards': 12}],
+        'spec_ops': ['event', 'pindex'],
+        'corr': 'corr.loc (CorrLoc.check_loc) on the dispatch profile (FindRules.Do observed: rule ids and when-bindings) and corr.pindex (the real PatternIndex against PatIndex.pi_add/pi_rem/pi_search and against the matcher)',
+        'rule': 'loc-dispatch: histories of 20-45 ops over 3-5 rule ids (AddRule with when-patterns derived from a pool of 4 events so that matches are common, overwrite with another when, overwrite by a plain fact, '
+                'RemRule, EnableRule, Clear, reload) interleaved with events from the pool (1 in 5 mutated), both state kinds, a parent location in 1 of 4 cases; '
+                'pindex: (pattern set, event) pairs against a fresh PatternIndex; non-trivial = at least 3 distinct (op, outcome) kinds; distinct by hash of inputs',
+        'refuted': ['propvar_shadow_refuted (D6)', 'two_array_vars_counterexample (outside the fragment)', 'direct_when_matched_by_index_only (D30)'],
+        'level_text': 'Coq theorems: pindex_complete (for every trie, indexable pattern and event: if the pattern lays over the event and the search does not fail, the id is returned - completeness of the trie over partial matching, no size bound), '
+                      'the exact effect of add/remove on the trie (pi_add_has, pi_add_only, pi_add_preserves, pi_rem_spec), search soundness w.r.t. stored ids, termination; over operation histories: the index invariant and dispatch exactness (see props/C01.v). '
+                      'Tie to the code: dispatch histories on both state kinds replayed through the extracted model and judged against the index-free (linear) specification; the real PatternIndex compared with the trie model and with the matcher.',
+        'level_note': 'Known findings (decidable predicates on cases): D6 property-variable keys shadowed, D7 events the index refuses (heterogeneous arrays, arrays of several maps, ?-strings), D30 direct-form when. '
+                      'The indexed state sorts the event\'s arrays in place while searching; bindings are compared modulo array order.',
+        'technique': 'Coq proof (embedding of the pattern path into the event pairs; induction on fuel and pair lists) + invariant over add/remove histories + differential replay against the real index and matcher',
+        'assumptions': ['sequential histories', 'JSON fragment without non-integral numbers'],
+    },
 }
